@@ -125,6 +125,21 @@ def families(seed, tier):
         add("clog", cfg(0, sync=1, asyn=1, perturb=1), [policy("X", "accept"), policy("Y", "accept"), open_("X"), await_("X", "open"), await_("Y", "open"),
                                                         op("stall", ep="X", cls="conn", on=True), send("X", "s", 4), op("stall", ep="X", cls="conn", on=False),
                                                         await_("X", "closed"), await_("Y", "closed")], bys=True)
+    # Connection task starved while both users close and one reopens at once (stream task vs protocol loop)
+    for i in range(40 if tier == "quick" else 400):
+        burst = [20, 60, 126, 127, 200, 400][i % 6]
+        add("close-race", cfg(0, sync=2048, mx=1024, perturb=2),
+            [policy("X", "accept"), policy("Y", "accept"), open_("X"), await_("X", "open"), await_("Y", "open"),
+             op("stall", ep="X", cls="conn", on=True), send("X", "s", burst, "max"), close_("Y"), op("pump", ep="Y", ms=[5, 20, 60][i % 3]),
+             op("stall", ep="X", cls="conn", on=False), close_("X"), await_("Y", "closed", ms=2000), open_("Y"), op("pump", ms=500),
+             open_("X"), op("pump", ms=300)])
+    # an answer to a validation request of a dead connection is applied to the next inbound substream
+    for i in range(4 if tier == "quick" else 30):
+        add("stale-validation", cfg(0, perturb=i % 3),
+            [policy("Y", "accept"), open_("X"), open_("Y"), await_("X", "asked"), op("cut"), await_("X", "down"), await_("Y", "down"),
+             op("dial"), await_("X", "up"), await_("Y", "up"), op("settle", quiet=200, ms=2000),
+             op("stall", ep="X", cls="proto", on=True), open_("Y"), op("pump", ep="Y", ms=300), val("X", ("accept", "reject")[i % 4 == 3], wait=0),
+             op("stall", ep="X", cls="proto", on=False), op("pump", ms=600)])
     # scenarios that wait for litep2p's compile-time timers (10 s negotiation): few in quick
     nslow = 2 if tier == "quick" else 10
     for i in range(nslow):
@@ -223,7 +238,7 @@ def script_from_behaviour(b, idx, seed, consts, paced):
 
 # ----------------------------------------------------------------------------- model checking
 
-TAGS = {"stale-shutdown-notice", "panic-after-stale-shutdown-notice", "report-overtakes-closed"}
+TAGS = {"stale-shutdown-notice", "panic-after-stale-shutdown-notice", "report-overtakes-closed", "stale-validation-result"}
 MC_LINES = ["SPECIFICATION Spec", "INVARIANTS MonOK NoUnknownPanic QuiesceOK", "CHECK_DEADLOCK FALSE"]
 
 
@@ -232,25 +247,193 @@ def mc_consts(auto=(), dial=False, mo=1, mcl=1, cut=0, rec=0, fail=0, sub=4, sta
             "MaxSub": sub, "MaxStall": stall, "KnownTags": set(tags)}
 
 
-def tla_consts(c):
-    d = {}
-    for k, v in c.items():
-        if isinstance(v, (set, frozenset)) and not v:
-            d[k] = "<- EmptySet"
-        else:
-            d[k] = v
-    return d
-
-
 def split_endpoints(lines):
     """segments per endpoint log (each starts with its reset line)"""
     return split_segments(lines, lambda ln: '"e":"reset"' in ln)
 
 
-def run_scripts(ctx, scripts, tag, threads=64, timeout=3000):
+def run_scripts_env(ctx, scripts, tag, env, threads=64, timeout=3000):
     p = ctx.path("scripts_%s.jsonl" % tag)
     write_jsonl(p, scripts)
     out = ctx.path("trace_%s.ndjson" % tag)
-    env = {}
     summ, _ = harness(ctx, "notif", ["--scripts", p, "--out", out, "--threads", threads], timeout=timeout, env=env)
     return summ, read_lines(out)
+
+
+def run_scripts(ctx, scripts, tag, threads=64, timeout=3000):
+    return run_scripts_env(ctx, scripts, tag, {}, threads=threads, timeout=timeout)
+
+
+# ----------------------------------------------------------------------------- C12: per-direction traces
+
+HDR = 12
+
+
+def direction_traces(lines):
+    """Build one C12 trace segment per (scenario, sender, receiver) from the endpoint logs.
+    Returns (segment_lines, info) where info counts sends / deliveries."""
+    segs = split_endpoints(lines)
+    by_sc = {}
+    for s in segs:
+        h = json.loads(s[0])
+        by_sc.setdefault(h["sc"], {})[h["ep"]] = (h, [json.loads(x) for x in s[1:]])
+    out, nsend, ndlv, ndir = [], 0, 0, 0
+    for sc, eps in by_sc.items():
+        for a in eps:
+            for b in eps:
+                if a == b or {a, b} == {"Y", "Z"}:
+                    continue
+                ha, la = eps[a]
+                hb, lb = eps[b]
+                tr = [{"e": "reset", "sc": sc, "from": a, "to": b, "sync": ha["sync"], "async": ha["async"], "max": ha["max"]}]
+                a_open, b_open, na_open, nb_open, sends, dl = False, False, 0, 0, 0, 0
+                for d in la:
+                    if d.get("p") != b:
+                        continue
+                    if d["e"] == "ev" and d["k"] == "opened":
+                        tr.append({"e": "po", "per": d["per"]})
+                        a_open, na_open = True, na_open + 1
+                    elif d["e"] == "ev" and d["k"] == "closed":
+                        tr.append({"e": "pe"})
+                        a_open = False
+                    elif d["e"] == "send" and d["r"] != "nostream":
+                        tr.append({"e": "s", "m": d["m"], "per": d["per"], "n": d["n"], "len": d["len"], "r": d["r"], "w": d.get("w", 0),
+                                   "idn": d["len"] >= HDR})
+                        sends += 1
+                for d in lb:
+                    if d.get("p") != a:
+                        continue
+                    if d["e"] == "ev" and d["k"] == "opened":
+                        tr.append({"e": "ro"})
+                        b_open, nb_open = True, nb_open + 1
+                    elif d["e"] == "ev" and d["k"] == "closed":
+                        tr.append({"e": "rc"})
+                        b_open = False
+                    elif d["e"] == "ev" and d["k"] == "recv":
+                        idn = d["len"] >= HDR
+                        tr.append({"e": "d", "m": d["m"] if d["m"] in ("s", "a") else "s", "per": d["per"], "n": d["n"], "len": d["len"],
+                                   "ok": bool(d["ok"]) and (d["m"] in ("s", "a") or not idn), "idn": idn})
+                        dl += 1
+                if sends == 0 and dl == 0:
+                    continue
+                qa = [d for d in la if d["e"] == "quiesce"]
+                qb = [d for d in lb if d["e"] == "quiesce"]
+                calm = bool(qa and qb and qa[-1]["stable"] and qb[-1]["stable"]) and not any(d["e"] == "panic" for d in la + lb)
+                tr.append({"e": "end", "open": bool(calm and a_open and b_open and na_open == nb_open)})
+                out += [json.dumps(x, separators=(",", ":")) for x in tr]
+                nsend += sends
+                ndlv += dl
+                ndir += 1
+    return out, {"directions": ndir, "sends": nsend, "deliveries": ndlv}
+
+
+def stream_families(seed, tier):
+    """data-plane scenarios: bursts beyond the channel capacities, reader stalls, size classes, close / reopen"""
+    out = []
+    n = 0
+
+    def add(name, c, steps):
+        nonlocal n
+        n += 1
+        c = dict(c)
+        c["seed"] = seed * 1000 + 500 + n
+        out.append({"id": "sfam-%s-%d" % (name, n), "cfg": c, "steps": steps + [op("quiesce")]})
+
+    opened = [policy("X", "accept"), policy("Y", "accept"), open_("X"), await_("X", "open"), await_("Y", "open")]
+    reps = 1 if tier == "quick" else 3
+    for r in range(reps):
+        for (sy, asy) in ((1, 1), (2, 2), (16, 8)):
+            for pert in (0, 1, 2):
+                base = cfg(0, sync=sy, asyn=asy, mx=(64, 256, 1024)[pert], perturb=pert)
+                # bursts 4x capacity in both modes and both directions, all size classes, reader drained
+                add("burst", base, opened + [send("X", "s", 4 * sy, "min"), send("X", "a", 4 * asy, "max"), send("Y", "a", 4 * asy, "mid"),
+                                             send("Y", "s", 4 * sy, "max"), op("pump", ms=200), send("X", "s", 2, "tiny"), send("X", "a", 2, "zero"),
+                                             send("X", "a", 3, "min"), op("pump", ms=200)])
+                # reader stall: only the sender is pumped, then the reader catches up
+                add("stall", base, opened + [send("X", "a", 3 * asy + 2, "max"), op("pump", ep="X", ms=150), send("X", "s", sy, "min"),
+                                             op("pump", ep="X", ms=100), op("pump", ms=300), send("X", "a", 2, "min"), op("pump", ms=100)])
+                # oversize: never delivered, ends the stream; reopen works
+                add("oversize", base, opened + [send("X", "a", 2, "max"), send("X", "a", 1, "over"), send("X", "a", 2, "min"), op("pump", ms=300),
+                                                await_("X", "closed", ms=3000), await_("Y", "closed", ms=3000), op("settle", quiet=200, ms=2000),
+                                                open_("Y"), await_("Y", "open"), await_("X", "open"), send("X", "s", 1, "max"), op("pump", ms=100)])
+                # close while notifications are in flight, reopen, send again (fresh sequence numbers)
+                add("close-reopen", base, opened + [send("X", "a", 2 * asy, "mid"), send("Y", "s", sy, "min"), close_("X"), await_("X", "closed"),
+                                                    await_("Y", "closed"), op("settle", quiet=200, ms=2000), open_("Y"), await_("Y", "open"),
+                                                    await_("X", "open"), send("X", "a", 3, "min"), send("Y", "a", 3, "max"), op("pump", ms=200)])
+                # connection cut under traffic
+                add("cut-traffic", base, opened + [send("X", "a", asy, "max"), send("Y", "a", asy, "max"), op("cut"), send("X", "s", 2, "min"),
+                                                   await_("X", "closed"), await_("Y", "closed")])
+    # capacity waits: the sender's Connection task is starved, so the channels fill: the asynchronous send must wait (and
+    # complete after the task runs again), the synchronous one accepts exactly its capacity; nothing lost or reordered
+    for i in range(3 if tier == "quick" else 12):
+        sy, asy = ((4, 1), (8, 2), (16, 8))[i % 3]
+        add("capacity-wait", cfg(0, sync=sy, asyn=asy, mx=256, perturb=i % 3),
+            opened + [op("stall", ep="X", cls="conn", on=True), send("X", "a", asy + 3, "max"), send("X", "s", sy, "min"), op("pump", ms=400),
+                      op("stall", ep="X", cls="conn", on=False), op("pump", ms=500), send("X", "a", 2, "min"), op("pump", ms=200)])
+    # transport frozen (the proxy stops forwarding) under a large burst, reader stalled, then everything flows again
+    for i in range(1 if tier == "quick" else 4):
+        add("frozen-transport", cfg(0, sync=16, asyn=8, mx=32768, perturb=i % 3),
+            opened + [op("freeze", on=True), send("X", "a", 300, "max"), send("Y", "a", 100, "mid"), op("pump", ep="X", ms=1500),
+                      send("X", "s", 10, "min"), op("freeze", on=False), op("pump", ep="X", ms=500), op("pump", ms=3000),
+                      send("X", "a", 3, "min"), op("pump", ms=300)])
+    # the receiver's user does not poll while > 4096 notifications (capacity of the handle's channel) arrive
+    for i in range(1 if tier == "quick" else 3):
+        add("reader-stall-4096", cfg(0, sync=16, asyn=8, mx=64, perturb=i % 3),
+            opened + [send("X", "a", 4400, "max"), op("pump", ep="X", ms=2500), send("X", "s", 10, "min"), op("pump", ep="X", ms=200),
+                      op("pump", ms=3000), send("X", "a", 3, "min"), op("pump", ms=300)])
+    # notifications of a closed stream left in the handle while the stream is reopened (receiver initiates, auto-accept)
+    for i in range(2 if tier == "quick" else 8):
+        add("stale-reopen", cfg(0, auto=("Y",), sync=2048, asyn=8, mx=64, perturb=i % 3),
+            opened + [send("X", "s", 200 + 100 * (i % 3)), op("pump", ep="X", ms=400), close_("X"), op("pump", ep="X", ms=400),
+                      op("pull", ep="Y", n=1), op("pull", ep="Y", n=1), open_("Y"), op("pump", ep="X", ms=600), op("pump", ms=300)])
+    return out
+
+
+def stream_random_script(rng, idx, seed):
+    sy, asy = rng.choice([(1, 1), (2, 1), (1, 2), (2, 2), (16, 8)])
+    c = cfg(seed * 100000 + 70000 + idx, auto=[e for e in EPS if rng.random() < 0.5], sync=sy, asyn=asy, mx=rng.choice([64, 256, 1024]),
+            perturb=rng.choice([0, 1, 2]))
+    steps = [policy("X", "accept"), policy("Y", "accept"), open_(rng.choice(EPS)), await_("X", "open"), await_("Y", "open")]
+    for _ in range(rng.randint(5, 22)):
+        r = rng.random()
+        e = rng.choice(EPS)
+        if r < 0.5:
+            steps.append(send(e, rng.choice(["s", "a"]), rng.choice([1, 2, 4 * sy, 4 * asy, 9]), rng.choice(["min", "mid", "max", "max", "tiny", "zero"])))
+        elif r < 0.53:
+            steps.append(send(e, rng.choice(["s", "a"]), 1, "over"))
+        elif r < 0.68:
+            steps.append(op("pump", ep=e, ms=rng.choice([5, 30, 120])))
+        elif r < 0.82:
+            steps.append(op("pump", ms=rng.choice([5, 30, 120])))
+        elif r < 0.88:
+            steps += [close_(e), await_("X", "closed", ms=2000), await_("Y", "closed", ms=2000)]
+            if rng.random() < 0.8:
+                steps += [open_(rng.choice(EPS)), await_("X", "open", ms=3000), await_("Y", "open", ms=3000)]
+        elif r < 0.91:
+            steps += [op("cut"), op("pump", ms=100), op("dial"), await_("X", "up", ms=4000), await_("Y", "up", ms=4000),
+                      open_(rng.choice(EPS)), await_("X", "open", ms=3000), await_("Y", "open", ms=3000)]
+        else:
+            steps.append(op("pull", ep=e, n=rng.choice([1, 2, 8])))
+    steps.append(op("quiesce"))
+    return {"id": "srnd-%d" % idx, "cfg": c, "steps": steps}
+
+
+def script_from_stream_behaviour(b, idx, seed, consts):
+    """NotifStreamMC behaviour (X = sender, Y = receiver) -> scenario"""
+    steps = [policy("X", "accept"), policy("Y", "accept"), open_("X"), await_("X", "open"), await_("Y", "open")]
+    for s in b:
+        a = s["a"]
+        if a in ("ssend", "asend"):
+            steps.append(send("X", "s" if a == "ssend" else "a", 1, "over" if s["over"] else ("max" if idx % 2 else "min")))
+        elif a == "recv":
+            steps += [op("pump", ep="X", ms=10), op("pull", ep="Y", n=1)]
+        elif a == "sclose":
+            steps.append(close_("X"))
+        elif a == "rclose":
+            steps.append(close_("Y"))
+        elif a == "reopen":
+            steps += [await_("X", "closed", ms=2000), await_("Y", "closed", ms=2000), open_("Y" if idx % 3 == 0 else "X"),
+                      await_("X", "open", ms=3000), await_("Y", "open", ms=3000)]
+    steps.append(op("quiesce"))
+    c = cfg(seed * 100000 + 90000 + idx, auto=("X", "Y") if idx % 2 else (), sync=consts["S"], asyn=consts["A"], mx=64, perturb=idx % 3)
+    return {"id": "stlc-%d" % idx, "cfg": c, "steps": steps}
